@@ -383,7 +383,9 @@ def honestRun (c : ClientCfg) (s : ServerCfg) (credOK : String → Bool) (user s
           let so : Outcome := ⟨d.authentication, ks.isSome, method, u, sid, "", ks, ran⟩
           if kc.isSome ≠ ks.isSome then ⟨.error .authFail, .ok so, false⟩
           else ⟨.ok ⟨didAuth, kc.isSome, method, (if u = "" then "unauthenticated@unmapped" else u), sid, "", kc, ran⟩, .ok so, false⟩
-        | .error e, .ok _ => ⟨.error e, .error .eof, false⟩
+        -- the server reads nothing after its post-authentication ad: a client that gives up at its own
+        -- key set-up (integrity REQUIRED, no usable cipher) is not noticed by the server's handshake
+        | .error e, .ok ks => ⟨.error e, .ok ⟨d.authentication, ks.isSome, method, (if didAuth then user else ""), sid, "", ks, ran⟩, false⟩
         | .ok _, .error e => ⟨.error .eof, .error e, false⟩
         | .error e1, .error e2 => ⟨.error e1, .error e2, false⟩
 
